@@ -364,6 +364,15 @@ class _FoldConstants(pyc.CodeVisitor):
                 name = other_et.__name__
                 msg = f'Value after * must be an iterable, not {name}'
                 raise ConstantError(msg, op)
+            elif other_tag == 'map':
+              # Iterating over a dict yields its keys.
+              other_et, _ = other_et
+              other_elts = tuple(
+                  _Constant(build_tuple(k), k, build_tuple(k)[1], other.op)
+                  if isinstance(k, tuple)
+                  else _Constant(('prim', type(k)), k, None, other.op)
+                  for k in other.value
+              )
             else:
               other_elts = other.elements
             typ = (tag, et | set(other_et))
